@@ -101,7 +101,9 @@ def run(tier, seed, escalate=False):
                         if e["kind"] == "data":
                             bad = eq_roundtrip(e["obj"], g["obj"])
                         else:
-                            bad = [] if num_eq({kk: strip_flags(v) for kk, v in e["kv"]}, g["kv"]) else ["dict"]
+                            # containers are one class on the way back (list / tuple / array), as for the attributes of data objects
+                            bad = [] if num_eq({kk: strip_flags(v if v["t"] != "ndarr" else {"t": "seq", "v": v["v"]}) for kk, v in e["kv"]},
+                                               g["kv"]) else ["dict"]
                         if bad:
                             key = "C07:roundtrip-differs:ws:" + "+".join(bad)
                             fails.append({"key": key, "clause": key, "ops": [c]}); break
